@@ -109,6 +109,10 @@ def run_worker_body_factory(ctx):
             self.tasks = list(tasks)
             return [f(t) for t in self.tasks]
 
+        def imap_unordered(self, f, tasks):
+            # what real pools offer besides map(): results in completion order (here: reversed)
+            return [f(t) for t in list(tasks)][::-1]
+
         def close(self):
             pass
 
